@@ -400,4 +400,4 @@ func TestReal(t *testing.T) {
 	})
 }
 
-func TestReplay(t *testing.T) { core.Replay(t, roundtrip, foreign, bigCheck, realCheck, nearCheck) }
+func TestReplay(t *testing.T) { core.Replay(t, roundtrip, foreign, bigCheck, realCheck, nearCheck, historyCheck) }
